@@ -56,6 +56,10 @@ MUTANTS = {
         ("src/common.rs", "        if s.contains(char::is_whitespace) {\n            Err(())\n        } else {", "        if s.starts_with(char::is_whitespace) {\n            Err(())\n        } else {"),
         ("src/client.rs", "        \"HTTP/1.0\" => (1, 0),", "        \"HTTP/1.0\" => (1, 1),"),
     ],
+    "u_tcp": [
+        ("src/util/refined_tcp_stream.rs", "        if self.close_write {\n            self.stream.shutdown(Shutdown::Write).ok();\n        }", ""),
+        ("src/util/refined_tcp_stream.rs", "    fn read(&mut self, buf: &mut [u8]) -> IoResult<usize> {\n        self.stream.read(buf)\n    }\n}\n\nimpl Write for RefinedTcpStream", "    fn read(&mut self, buf: &mut [u8]) -> IoResult<usize> {\n        let n = self.stream.read(buf)?;\n        if n == 0 { self.stream.shutdown(Shutdown::Both).ok(); }\n        Ok(n)\n    }\n}\n\nimpl Write for RefinedTcpStream"),
+    ],
     "u_resp": [
         ("src/response.rs", "                100..=199 | 204 | 304 => true,", "                100..=199 | 204 => true,"),
         ("src/response.rs", "            self.headers.insert(0, build_date_header());", "            self.headers.push(build_date_header());"),
